@@ -673,6 +673,24 @@ class World(object):
         return h.hexdigest()
 
 
+class FollowHandle(SimReadHandle):
+    """A read handle on a file that is still being written (tail -f, a
+    consumer of a log that grows): every read sees what the producer has
+    stored by then."""
+
+    def __init__(self, world, fname, actor, **kw):
+        self._fname = fname
+        SimReadHandle.__init__(self, world, b'', actor, cap=1 << 30, **kw)
+
+    @property
+    def data(self):
+        return self.world.visible(self._fname)
+
+    @data.setter
+    def data(self, value):
+        pass
+
+
 class _Counter(OrderedDict):
     def __missing__(self, k):
         return 0
